@@ -115,10 +115,69 @@ def vars_for(p):
     return res[:4]
 
 
+REACH_MODEL = """[request_definition]
+r = key
+[policy_definition]
+p = pat
+[policy_effect]
+e = some(where (p.eft == allow))
+[matchers]
+m = {name}(r.key, p.pat)
+"""
+
+
+class Reach:
+    """the built-ins as a MATCHER reaches them: one real Enforcer per registered name whose matcher is
+    <name>(r.key, p.pat); f(key, pattern) stores the pattern as the only rule and asks enforce(key)"""
+
+    def __init__(self):
+        import casbin
+        from casbin.model import Model
+        self.enf, self.cur = {}, {}
+        for name in REGISTERED.values():
+            m = Model()
+            m.load_model_from_text(REACH_MODEL.format(name=name))
+            self.enf[name] = casbin.Enforcer(m)
+
+    def fn(self, name):
+        e = self.enf[name]
+
+        def f(key, pattern):
+            if self.cur.get(name) != pattern:
+                e.clear_policy()
+                e.add_policy(pattern)
+                self.cur[name] = pattern
+            return e.enforce(key)
+        return f
+
+
+def others_customise():
+    """what OTHER users of the library in the same process may do through the public API: an enforcer registers its
+    own functions under the built-in names (add_function), a function map obtained from load_function_map() is edited,
+    an RBAC enforcer has enforced (its role functions are entered into its function table).  None of this is about
+    the enforcers under observation."""
+    import casbin
+    from casbin.model import Model
+    from casbin.model.function import FunctionMap
+    m = Model()
+    m.load_model_from_text(REACH_MODEL.format(name="keyMatch").replace("[policy_effect]", "[role_definition]\ng = _, _\n[policy_effect]"))
+    other = casbin.Enforcer(m)
+    other.add_policy("/x")
+    other.enforce("/x")
+    for i, name in enumerate(list(REGISTERED.values()) + ["regexMatch"]):
+        other.add_function(name, (lambda *a: True) if i % 2 else (lambda *a: False))
+    other.enforce("/y")
+    fm = FunctionMap.load_function_map()
+    for name in REGISTERED.values():
+        fm.add_function(name, lambda *a: True)
+    return other, fm           # kept alive by the caller
+
+
 class Runner:
-    def __init__(self, chk):
+    def __init__(self, chk, reach=None):
         self.chk = chk
         self.bo, self.util, self.fm = load_impl()
+        self.reach = reach
         self.strata = {}
         self.fail_cap = 40
         self.total_spec_fail = 0
@@ -129,6 +188,9 @@ class Runner:
                      "key_match3": bo.key_match3, "key_match4": bo.key_match4, "key_match5": bo.key_match5,
                      "glob_match": bo.glob_match, "key_get2": bo.key_get2, "key_get3": bo.key_get3,
                      "ip_match": bo.ip_match}
+        if reach is not None:
+            for fn, name in REGISTERED.items():
+                self.impl[fn] = reach.fn(name)
         self.wrap = {"key_match": bo.key_match_func, "key_match2": bo.key_match2_func,
                      "key_match3": bo.key_match3_func, "key_match4": bo.key_match4_func,
                      "key_match5": bo.key_match5_func, "glob_match": bo.glob_match_func,
@@ -592,11 +654,11 @@ def class_cases(rng, n):
 # ---------------------------------------------------------------------- the run
 BUDGET = {
     # A: every pattern over the 8-character alphabet; B: documented-form patterns; G: glob alphabets
-    "quick": dict(A=(4, 3), B=(5, 4), G1=(5, 4), G2=(4, 3), random=3000, ipbase=12, ip6=(8, 10, 6), classes=(4, 300), nl=(3, 2)),
+    "quick": dict(A=(4, 3), B=(5, 4), G1=(5, 4), G2=(4, 3), random=3000, ipbase=12, ip6=(8, 10, 6), classes=(4, 300), nl=(3, 2), reach=(600, 3)),
     # after a broken proof/correspondence in quick: look for a failing input where it is most likely to be
     # (longer documented-form patterns, more generated paths); the other strata are not repeated
-    "escalated": dict(A=None, B=(6, 4), G1=None, G2=None, random=12000, ipbase=40, ip6=(40, 24, 30), classes=None, nl=None),
-    "thorough": dict(A=(4, 4), B=(6, 5), G1=(6, 5), G2=(5, 3), random=20000, ipbase=120, ip6=(120, None, 200), classes=(5, 3000), nl=(4, 3)),
+    "escalated": dict(A=None, B=(6, 4), G1=None, G2=None, random=12000, ipbase=40, ip6=(40, 24, 30), classes=None, nl=None, reach=(3000, 8)),
+    "thorough": dict(A=(4, 4), B=(6, 5), G1=(6, 5), G2=(5, 3), random=20000, ipbase=120, ip6=(120, None, 200), classes=(5, 3000), nl=(4, 3), reach=(6000, 12)),
 }
 
 
@@ -677,6 +739,11 @@ def run(chk, budget):
                         [rng.getrandbits(128) & ~(((1 << 64) - 1) << rng.randrange(0, 65)) for _ in range(20 * nrand)] +
                         [n for _, n in ip_util.structured6()[::7]], "ip6-renderings")
 
+    # F: the registered names as REACHED THROUGH an Enforcer's matcher (the property's second observation point), before
+    #    and after other users of the library customised their own function tables
+    if b.get("reach"):
+        run_reached(chk, R, b["reach"])
+
     # kernel cross-check of the extracted oracle on a sample of small requests
     pool = R.vm_pool
     k = 160 if budget == "quick" else 1200
@@ -702,6 +769,47 @@ def run(chk, budget):
         except Exception as e:  # noqa  (shrinking is best effort)
             chk.notes.append(f"shrink failed: {e!r}")
     return R
+
+
+REACH_PHASES = ("reached-through-enforcer", "reached-through-enforcer/others-customised/enforcer-built-before",
+                "reached-through-enforcer/others-customised/enforcer-built-after")
+
+
+def reach_runners(chk, R=None):
+    """the three observation set-ups, in program order: enforcers built now; the same enforcers after others
+    customised; fresh enforcers built after that.  Yields (stratum name, Runner)"""
+    first = Reach()
+    r0 = Runner(chk, reach=first)
+    yield REACH_PHASES[0], r0
+    keep = others_customise()
+    yield REACH_PHASES[1], r0
+    r2 = Runner(chk, reach=Reach())
+    r2.keep = keep
+    yield REACH_PHASES[2], r2
+
+
+def run_reached(chk, R, budget):
+    import time
+    n, nip = budget
+    rng = chk.rng
+    t0 = time.time()
+    styles = {"colon": ["key_match", "key_match2"], "brace": ["key_match3", "key_match4", "key_match5"],
+              "star": ["key_match", "key_match2", "key_match3", "key_match5", "glob_match"], "glob": ["glob_match"]}
+    for phase, (name, Rr) in enumerate(reach_runners(chk)):
+        Rr.strata, Rr.vm_pool, Rr.fail_cap = R.strata, R.vm_pool, R.fail_cap
+        Rr.check_registration()
+        for style, funcs in styles.items():
+            groups = {}
+            for _ in range(n // 12):
+                p, k = gen_path_case(rng, style)
+                groups.setdefault(p, []).append(k)
+                chk.nontrivial.add((name, style, p, k))
+            run_generated(Rr, name, groups, funcs)
+        Rr.run_ip(ip_util.grid4(rng, nip) + ip_util.structured6_cases(rng)[phase::40] + ip_util.mixed(rng, nip), name + "/ip")
+        R.total_spec_fail += Rr.total_spec_fail
+        R.total_disagree += Rr.total_disagree
+        Rr.total_spec_fail = Rr.total_disagree = 0
+    R.strata["reached-through-enforcer-wall"] = dict(seconds=round(time.time() - t0, 1))
 
 
 def run_generated(R, name, groups, funcs):
@@ -824,6 +932,8 @@ def replay(chk):
     if fn is None or c.get("kind") in ("export", "registration", "extraction-vs-vm_compute"):
         R = Runner(chk)
         R.check_registration()
+        for _name, Rr in reach_runners(chk):       # ... and in the set-ups of stratum F (before / after others customised)
+            Rr.check_registration()
         if chk.spec_failures:
             print("replay: registration/export check fails:", chk.spec_failures[0]["what"])
             print(f"VIOLATION property={chk.prop} replay={chk.replay_file}")
@@ -831,6 +941,12 @@ def replay(chk):
         print("replay file names a broken theorem/correspondence, not an input:", json.dumps(rec.get("broken"))[:800])
         sys.exit(1 if rec.get("kind") == "no-failing-input-found" else 0)
     R = Runner(chk)
+    if str(c.get("stratum", "")).split("/ip")[0] in REACH_PHASES:
+        # the case was observed through an enforcer: rebuild the same set-up (program order matters)
+        for name, Rr in reach_runners(chk):
+            if name == str(c["stratum"]).split("/ip")[0]:
+                R = Rr
+                break
     if fn == "ip_match":
         if c.get("kind") == "render":
             R.run_ip_render([int(c["n"])], "replay")
